@@ -245,6 +245,34 @@ func HugeStep(r *rand.Rand) KeySet {
 	return KeySet{uniqSorted(m), "hugestep"}
 }
 
+// LongTails: 2..8 keys whose tails behind the last branch are long (255..70000 bytes: stored leaf
+// prefixes at and beyond the 8-bit and 16-bit width boundaries), some keys being prefixes of others.
+// hugeTails: tails of 32..70 KiB (the model's select over the position bitmap walks bit by bit).
+var hugeTails = false
+
+func LongTails(r *rand.Rand) KeySet {
+	m := map[string]struct{}{}
+	n := 2 + r.Intn(7)
+	huge := hugeTails && r.Intn(4) == 0
+	for i := 0; i < n; i++ {
+		w := []int{254, 255, 256, 257, 1000}[r.Intn(5)]
+		if huge && i < 2 {
+			w = []int{32767, 32768, 65535, 65536, 70000}[r.Intn(5)]
+		}
+		head := randStr(r, alphabets[0], 0, 3)
+		tail := strings.Repeat(string([]byte{byte(0x21 + r.Intn(90))}), w)
+		m[head+tail] = struct{}{}
+		if r.Intn(3) == 0 {
+			m[head] = struct{}{}
+		}
+		if r.Intn(4) == 0 && w/2 < 32700 {
+			// (a shared single-branch run must stay within the uint16 step: 65535 half-bytes)
+			m[head+tail[:w/2]] = struct{}{}
+		}
+	}
+	return KeySet{uniqSorted(m), "longtails"}
+}
+
 // Any picks a shape class at random; sizes scale with `size` (max keys).
 func Any(r *rand.Rand, size int) KeySet {
 	if size >= 20 {
@@ -253,6 +281,8 @@ func Any(r *rand.Rand, size int) KeySet {
 			return DeepChain(r)
 		case 2:
 			return HugeStep(r)
+		case 3:
+			return LongTails(r)
 		}
 	}
 	if size >= 200 && r.Intn(12) == 0 {
